@@ -24,9 +24,10 @@ RULE = ("cases = invocations of the real ragc binary: getset <archive> x <reques
         "from sorted order -, none, longer than any name) + unknown name alone/first/middle/last + no names; archives = "
         "3 (quick) real archives (multi-file, single-file PanSN, longer contigs with IUPAC letters) + missing file + "
         "truncations + garbage + one flipped byte (content taken from single-sample observation); listset/listctg "
-        "likewise; create x {--batch, --adaptive, --concatenated, both, --cpp-agc, -t 0/1/16, -v 0, no inputs, "
-        "~45 --queue-capacity strings}; every create that exits 0 is followed by listset and one getset per input "
-        "sample (full length). non-trivial = not a successful single-name getset; distinct = distinct case line")
+        "likewise; create x {--batch, --adaptive, --concatenated, both, --cpp-agc, -t 0/16 (thorough: 1, 3), -v 0, no "
+        "inputs, ~45 --queue-capacity strings (parsed value compared through the verbose banner; dev-profile binary "
+        "for the overflowing ones)}; every create that exits 0 (5 quick / 13 thorough really compress) is followed by "
+        "listset and one getset per input sample (full length). non-trivial = not a successful single-name getset; distinct = distinct case line")
 TRUSTED = ["clap's argument parsing (the harness always passes options before `--`)",
            "python oracle in checks/c17.py (FASTA rendering at 80 columns, parse_capacity re-implementation)",
            "process exit plumbing of anyhow/std (Err -> 1, panic -> 101): exercised, not modelled",
@@ -189,6 +190,10 @@ def render(contigs):
     return out
 
 
+if "--replay" in sys.argv and "vlib" in globals():
+    ensure_cli()            # a replay does not go through gen_cases: the harness still needs the current binary
+
+
 # ------------------------------------------------------------------------------------------ generator
 def rename(samples, names):
     return [(n, c) for n, (_, c) in zip(names, samples)]
@@ -204,7 +209,7 @@ def quick_sets(rng, tier):
     c = [(n, [(cn, gen_samples.mutate(rng, s, 0.0, iupac_rate=0.01, nrun_rate=0.002)) for cn, s in cs]) for n, cs in c]
     sets.append(("multi", rename(c, ["x", "xy"])))
     if tier != "quick":
-        for _ in range(5):
+        for _ in range(8):
             s = gen_samples.gen_set(rng, clen=rng.choice([100, 300, 800]))
             sets.append((rng.choice(["multi", "single"]), s))
     return sets
@@ -332,9 +337,10 @@ def gen_cases(rng, tier):
         for q in (b"18014398509481984K", b"17179869184G", b"17592186044416M", b"1K", b"1X"):
             cs.append(f"create {M} dev adaptive q={hx(q)}")
     # the ones that really compress (about 15 s each on a loaded machine)
-    ok_flags = [[], ["t=0"], ["t=1"], ["t=16"], ["q=" + hx(b"1K")], ["q=" + hx(b"7")]]
+    ok_flags = [[], ["t=0"], ["t=16"], ["q=" + hx(b"7")]]
     if tier != "quick":
-        ok_flags += [["v=0", "t=0"], ["q=" + hx(b"18014398509481984K")], ["t=3"], ["q=" + hx(b" 2g ")], ["v=2"]]
+        ok_flags += [["t=1"], ["q=" + hx(b"1K")], ["v=0", "t=0"], ["q=" + hx(b"18014398509481984K")], ["t=3"],
+                     ["q=" + hx(b" 2g ")], ["v=2"]]
     for i, fl in enumerate(ok_flags):
         cs.append(f"create {M if i % 3 != 1 else S} " + " ".join(fl))
     # one file holding one sample: before the -t 0 fix this exited 0 with sequence-less contigs
